@@ -61,6 +61,9 @@ for o_ in family(5, ("quick",), [], "five", 900):
         OBLIGATIONS.append(o_)
 # thorough: every shape with <= 6 nodes (34 shapes); cbmc pointer/bounds checks on the <= 4-node shapes
 OBLIGATIONS += family(6, ("thorough",), [], "t", 1800)
-OBLIGATIONS += family(4, ("thorough",), ["bounds", "pointer"], "m", 1800)
+_m = family(4, ("thorough",), ["bounds", "pointer"], "m", 1800)
+for o_ in _m:
+    o_.mem_gb = 14          # cbmc's pointer checks make these the memory-hungry ones
+OBLIGATIONS += _m
 LEVEL_TEXT = "x"
 LEVEL_NOTE = "x"
